@@ -733,6 +733,64 @@ def is_blank_row(row):
 SPAN = re.compile(r'<span style="color:(#[0-9a-f]{6});background:(#[0-9a-f]{6})([^"]*)">([^<]*)</span>')
 
 
+def html_colours(sp):
+    """(fg, bg) strings html_span uses for an AttrSpec (before the cursor swap)"""
+    from urwid.display import html_fragment
+    rgb = sp.get_rgb_values()
+    d = html_fragment._default_aspec.get_rgb_values()
+    f = rgb[0:3] if rgb[0] is not None else d[0:3]
+    b = rgb[3:6] if rgb[3] is not None else d[3:6]
+    hf, hb = "#%02x%02x%02x" % tuple(f), "#%02x%02x%02x" % tuple(b)
+    if sp.standout:
+        hf, hb = hb, hf
+    return hf, hb
+
+
+def html_generator(case):
+    from urwid.display import html_fragment
+    gen = html_fragment.HtmlGenerator()
+    gen.set_terminal_properties(colors=case["colors"])
+    gen.register_palette([tuple(p) for p in case.get("palette", [])])
+    return gen
+
+
+def html_run(case):
+    """kind 'html': draw one canvas with the real HtmlGenerator, parse the fragment into rows of [fg, bg, text]"""
+    import urwid
+    from urwid.display import html_fragment
+    urwid.set_encoding(case["enc"])
+    try:
+        gen = html_generator(case)
+        canvas = build_canvas(case, case, {})
+        html_fragment.HtmlGenerator.fragments = []
+        try:
+            gen.draw_screen((case["cols"], case["rows"] + (1 if case.get("badrows") else 0)), canvas)
+        except (KeyError, ValueError, IndexError, TypeError, UnicodeError) as e:
+            return {"err": type(e).__name__}
+        finally:
+            frags, html_fragment.HtmlGenerator.fragments = html_fragment.HtmlGenerator.fragments, []
+        frag = frags[-1]
+        if not (frag.startswith("<pre>") and frag.endswith("</pre>")):
+            return {"unparsed": frag[:200]}
+        lines = frag[5:-6].split("\n")
+        if lines and lines[-1] == "":
+            lines.pop()
+        rows = []
+        for line in lines:
+            pos, spans = 0, []
+            for m in SPAN.finditer(line):
+                if m.start() != pos:
+                    return {"unparsed": line[:200]}
+                pos = m.end()
+                spans.append([m.group(1), m.group(2), _html.unescape(m.group(4))])
+            if pos != len(line):
+                return {"unparsed": line[:200]}
+            rows.append(spans)
+        return {"html": rows}
+    finally:
+        urwid.set_encoding("utf-8")
+
+
 def html_check(case, fr, canvas, content, cols, rows):
     """draw the canvas with HtmlGenerator and compare: text row by row, <= 1 highlighted cell"""
     import urwid
@@ -788,14 +846,8 @@ def html_check(case, fr, canvas, content, cols, rows):
             if isinstance(a, AttrSpec):
                 sp = a
             else:
-                sp = gen._palette[a][COLOR_IDX[gen.colors]]
-            rgb = sp.get_rgb_values()
-            d = html_fragment._default_aspec.get_rgb_values()
-            f = rgb[0:3] if rgb[0] is not None else d[0:3]
-            b = rgb[3:6] if rgb[3] is not None else d[3:6]
-            hf, hb = "#%02x%02x%02x" % tuple(f), "#%02x%02x%02x" % tuple(b)
-            if sp.standout:
-                hf, hb = hb, hf
+                sp = gen._palette.get(a, gen._palette[None])[COLOR_IDX[gen.colors]]
+            hf, hb = html_colours(sp)
             for ch in run.decode(enc, "replace"):
                 chars.append((col, hf, hb))
                 col += str_util.get_char_width(ch) if enc == "utf-8" else 1
@@ -837,7 +889,7 @@ PALETTE = [
 class C04(core.Check):
     pid = "C04"
     gen_modules = []
-    model_targets = ["theories/Model/TermRef.vo", "theories/Model/DrawScreen.vo"]
+    model_targets = ["theories/Model/TermRef.vo", "theories/Model/DrawScreen.vo", "theories/Model/HtmlGen.vo"]
     prop_file = "theories/Properties/C04.v"
     extract_v = "Extract/C04X.v"
     allowed_axioms = set()
@@ -858,13 +910,14 @@ class C04(core.Check):
                   "the bottom-right insert trick; (history_paints, history_keeps_sync) for every history of draws, redraws "
                   "of the same canvas object, clear() over arbitrary terminal contents and size changes; "
                   "(incremental_eq_full) incremental redraw and forced full repaint paint the same picture; "
-                  "(redraw_same_canvas_writes_nothing).  REFUTED with machine-checked witnesses replayed on the "
+                  "(redraw_same_canvas_writes_nothing); (html_exact) the HTML back-end's spans carry exactly the canvas text row "
+                  "by row with at most one one-character span swapped, for every canvas and cursor.  REFUTED with machine-checked witnesses replayed on the "
                   "implementation (known findings): draw_paints_charset_u_full (IBMPC charset 'U' leaks into the next "
                   "frame) and draw_paints_partial_full (partial display: _cy stale after a cursorless frame).  NOT proved, "
                   "statement kept (draw_paints_any_text_full): zero-width and C0 control characters.  Correspondence/oracle "
                   "only: everything above on the real code (exact token streams, all five colour depths, utf-8/ascii/"
-                  "iso8859-1, partial display, widgets), and the whole HTML back-end clause (text row by row, colours per "
-                  "run, <= 1 highlighted cell at the cursor).")
+                  "iso8859-1, partial display, widgets); for the HTML back-end the escaping, the colour strings and the position "
+                  "of the highlighted cell (oracle: unescaped text = canvas text, colours per run, highlight at the cursor).")
     level_note = ("Trusted: Coq kernel; the hand-written model (tied by exact correspondence, not proved against Python); "
                   "TermRef.v as the definition of 'VT100/xterm-compatible' for the modelled subset (cross-checked against a "
                   "second, independently parsed Python interpreter on real and random streams); the harness decoding of "
@@ -874,12 +927,13 @@ class C04(core.Check):
     rule = ("case = configuration (encoding, colour depth, bright-is-bold/blink, BCE, partial display + origin) + history of "
             "frames (draw of explicit rows via FakeCanvas or TextCanvas / of a rendered widget tree, same-canvas redraw, "
             "clear() with terminal scrambling, SIGWINCH + ack + new size, draw while resize pending, size/rows mismatch), "
-            "plus terminal-only random token streams; exhaustive single frames for every row over {a, blank, wide} x "
+            "plus terminal-only random token streams and single HtmlGenerator draws (rows, TextCanvas, widgets; cursor on/off); exhaustive single frames for every row over {a, blank, wide} x "
             "{default, standout} up to 4 (thorough 5) columns as only/bottom/top row, BCE on/off; non-trivial = some "
             "frame wrote tokens; distinct by hash of (case, outcome)")
     trusted_base = [
         "Coq 8.16.1 kernel (coqc; vm_compute only in closed examples and the two refutation witnesses)",
-        "hand-written Model/DrawScreen.v (validated by the exact token correspondence on every frame, not proved against Python)",
+        "hand-written Model/DrawScreen.v and Model/HtmlGen.v (validated by the exact token / span correspondence on every case, "
+        "not proved against Python)",
         "Model/TermRef.v as the meaning of a VT100/xterm-compatible terminal for the modelled subset "
         "(compared cell by cell with the independently parsed Python RefTerm on real and random streams)",
         "Model/PaintSpec.v: visual cell equality and the AttrSpec -> visible attribute table as the meaning of 'shows the canvas'",
@@ -911,6 +965,8 @@ class C04(core.Check):
     def run_impl(self, case):
         if case.get("kind") == "term":
             return self.run_term(case)
+        if case.get("kind") == "html":
+            return html_run(case)
         res, _aux = self.history(case)
         return res
 
@@ -952,6 +1008,8 @@ class C04(core.Check):
         if case.get("kind") == "term":
             from urwid import str_util
             return [2, case["cols"], case["rows"]] + tokenize(print_tokens(case["toks"]), str_util.get_char_width)
+        if case.get("kind") == "html":
+            return self.encode_html(case)
         _res, aux = self.history(case)
         scr = aux["screen"]
         wof = width_fn(case["enc"])
@@ -1005,7 +1063,71 @@ class C04(core.Check):
             out += f
         return out
 
+    _html_memo = (None, None)
+
+    def encode_html(self, case):
+        import urwid
+        from urwid import str_util
+        from urwid.display.common import AttrSpec
+        urwid.set_encoding(case["enc"])
+        try:
+            gen = html_generator(case)
+            canvas = build_canvas(case, case, {})
+            table = [None]
+            out_rows = []
+            for row in canvas.content():
+                r = [len(row)]
+                for a, cs, run in row:
+                    chars = run.decode(case["enc"], "replace")
+                    r += [intern_attr(a, table), CS_CODE[cs], len(chars)]
+                    for ch in chars:
+                        r += [ord(ch), str_util.get_char_width(ch)]
+                out_rows.append(r)
+            kinds, colours = [], []
+            for a in table:
+                if isinstance(a, AttrSpec):
+                    kinds.append(1)
+                    colours.append(html_colours(a))
+                elif a in gen._palette:
+                    kinds.append(0)
+                    colours.append(html_colours(gen._palette[a][COLOR_IDX[gen.colors]]))
+                else:
+                    kinds.append(2)
+                    colours.append(html_colours(gen._palette[None][COLOR_IDX[gen.colors]]))
+            C04._html_memo = (core.canon(case), colours)
+            cur = case.get("cursor")
+            out = [3, case["rows"] + (1 if case.get("badrows") else 0)] + ([0] if cur is None else [1, cur[0], cur[1]])
+            out += [len(kinds)] + kinds + [len(out_rows)]
+            for r in out_rows:
+                out += r
+            return out
+        finally:
+            urwid.set_encoding("utf-8")
+
+    def decode_html(self, case, ints):
+        if self._html_memo[0] != core.canon(case):
+            self.encode_html(case)
+        colours = self._html_memo[1]
+        if not ints or ints[0] != 0:
+            return {"err": {1: "IndexError", 2: "ValueError", 3: "TypeError", 8: "KeyError"}.get(ints[0] if ints else -9, "model-error")}
+        it = iter(ints[1:])
+        try:
+            rows = []
+            for _ in range(next(it)):
+                spans = []
+                for _ in range(next(it)):
+                    a, sw, n = next(it), next(it), next(it)
+                    text = "".join(chr(next(it)) for _ in range(n))
+                    hf, hb = colours[a]
+                    spans.append([hb, hf, text] if sw else [hf, hb, text])
+                rows.append(spans)
+        except StopIteration:
+            return {"malformed": ints[:40]}
+        return {"html": rows}
+
     def decode(self, case, ints):
+        if case.get("kind") == "html":
+            return self.decode_html(case, ints)
         if case.get("kind") == "term":
             from urwid import str_util
             return {"toks": tokenize(print_tokens(case["toks"]), str_util.get_char_width), "term": list(ints)}
@@ -1030,8 +1152,22 @@ class C04(core.Check):
     def oracle(self, case, res):
         if case.get("kind") == "term":
             return []
+        if case.get("kind") == "html":
+            return self.oracle_html(case, res)
         _res, aux = self.history(case)
         return self.judge(case, aux)
+
+    def oracle_html(self, case, res):
+        import urwid
+        urwid.set_encoding(case["enc"])
+        try:
+            if case.get("badrows"):
+                return [] if res.get("err") == "ValueError" else ["html: size/rows mismatch not rejected with ValueError"]
+            canvas = build_canvas(case, case, {})
+            content = [list(r) for r in canvas.content()]
+            return html_check(case, case, canvas, content, case["cols"], case["rows"])
+        finally:
+            urwid.set_encoding("utf-8")
 
     def judge(self, case, aux):
         import urwid
@@ -1122,7 +1258,7 @@ class C04(core.Check):
                         rec["tx"], rec["ty"] - origin, " pending-wrap" if rec["pending"] else "", tuple(cur)))
             if msgs:
                 return msgs
-            if partial and rec["ty"] - origin != rec["cy_attr"]:
+            if partial and cur is None and rec["ty"] - origin != rec["cy_attr"]:
                 stale_cy = True
             if rec["ibmpc"]:
                 ibmpc_stuck = True
@@ -1151,7 +1287,7 @@ class C04(core.Check):
                 "bbb": rng.choice([0, 0, 1]), "bce": rng.choice([1, 1, 0]), "partial": 0,
                 "palette": PALETTE, "attrs": self.ATTRS}
 
-    def gen_cells(self, rng, cols, enc, last_row_bias=False):
+    def gen_cells(self, rng, cols, enc, last_row_bias=False, zero_width_runs=True):
         """one canvas row as a list of (attr index, cs, text, width) cells filling exactly cols columns"""
         nat = len(self.ATTRS)
         trailing = min(cols, rng.choice([0, 0, 0, 1, 1, 2, 3, cols // 2, cols]))
@@ -1174,6 +1310,9 @@ class C04(core.Check):
                     ch, w = rng.choice(["\u2500", "\u2502", "\u250c", "\u00e9"]), 1
                 elif r < 0.39 and cells and cells[-1][3] > 0 and cells[-1][2] != " ":
                     cells[-1] = (cells[-1][0], cells[-1][1], cells[-1][2] + "\u0301", cells[-1][3])
+                    continue
+                elif r < 0.40 and zero_width_runs and cells:
+                    cells.append((rng.randrange(nat), 0, "\u0301", 0))      # a combining character under its own attribute
                     continue
                 else:
                     ch, w = rng.choice("abcxyzXYZ01._-<&"), 1
@@ -1465,18 +1604,43 @@ class C04(core.Check):
                                         "cursor": None, "scramble": rng.choice([0, 1, 2])}]
                         yield c
 
+    def gen_html_case(self, rng):
+        case = self.gen_config(rng)
+        enc = case["enc"]
+        cols, rows = self.gen_size(rng, rng.choice(["tiny", "small", "small"]))
+        case.update(kind="html", cols=cols, rows=rows)
+        case["canvas"] = None
+        if rng.random() < 0.2:
+            case["canvas"] = ["widget", self.gen_widget(rng)]
+            if not self.widget_ok(case, case):
+                case["canvas"] = None
+        if case["canvas"] is None:
+            rws = self.gen_rows(rng, cols, rows, enc)
+            if enc != "utf-8":
+                rws = [[[a, cs, t] for a, cs, t in row if True] for row in rws]
+            case["canvas"] = [rng.choice(["rows", "textcanvas"]), rws]
+        if self.uses_undef(case["canvas"]) and rng.random() > 0.03 and case["canvas"][0] != "widget":
+            safe = self.HTML_SAFE_ATTRS
+            case["canvas"] = [case["canvas"][0], [[[a if a in safe else 0, cs, t] for a, cs, t in row] for row in case["canvas"][1]]]
+        case["cursor"] = self.gen_cursor(rng, cols, rows, 0.7)
+        if rng.random() < 0.02:
+            case["badrows"] = 1
+        return case
+
     def cases(self, rng, tier):
         k = 1 if tier == "quick" else 8
+        for _ in range(1500 * k):
+            yield self.gen_html_case(rng)
         yield from self.exhaustive_cases(rng, 4 if tier == "quick" else 5)
         for _ in range(600 * k):
             yield self.gen_term_case(rng)
-        for _ in range(900 * k):
+        for _ in range(2000 * k):
             yield self.gen_case(rng, "tiny")
-        for _ in range(1500 * k):
+        for _ in range(3000 * k):
             yield self.gen_case(rng, "small")
-        for _ in range(300 * k):
+        for _ in range(700 * k):
             yield self.gen_case(rng, rng.choice(["tiny", "small"]), partial=True)
-        for _ in range(6 * k):
+        for _ in range(8 * k):
             yield self.gen_case(rng, "big", nframes=3)
 
     def search_cases(self, rng, tier):
@@ -1485,6 +1649,15 @@ class C04(core.Check):
 
     def shrink_candidates(self, case):
         if case.get("kind") == "term":
+            return
+        if case.get("kind") == "html":
+            if case.get("cursor") is not None:
+                yield dict(case, cursor=None)
+            if case["canvas"][0] in ("rows", "textcanvas"):
+                rws = case["canvas"][1]
+                for y, row in enumerate(rws):
+                    if any(r[0] != 0 for r in row):
+                        yield dict(case, canvas=[case["canvas"][0], rws[:y] + [[[0, r[1], r[2]] for r in row]] + rws[y + 1:]])
             return
         frames = case["frames"]
         for i in range(len(frames)):
@@ -1527,6 +1700,14 @@ class C04(core.Check):
             if res["term"][6]:
                 inc("terminal-only:scrolled")
             return
+        if case.get("kind") == "html":
+            inc("kind:html")
+            inc("html:cursor:%d" % (case.get("cursor") is not None))
+            if "err" in res:
+                inc("html:err:" + res["err"])
+            elif "html" in res and any(len(r) >= 3 for r in res["html"]):
+                inc("html:multi-span-rows")
+            return
         inc("enc:" + case["enc"])
         inc("colors:%d" % case["colors"])
         inc("bce:%d" % case["bce"])
@@ -1566,6 +1747,8 @@ class C04(core.Check):
     def nontrivial(self, case, res):
         if case.get("kind") == "term":
             return bool(res["toks"])
+        if case.get("kind") == "html":
+            return True
         return any(f["toks"] for f in res["frames"])
 
     def signature(self, case, msg):
